@@ -15,7 +15,9 @@ def dt0(vf, initial_values: Sequence, /, scale=0.01, nugget=1e-5, **vf_kwargs):
     u0, _ = tree.ravel_pytree(u0)
     f0, _ = tree.ravel_pytree(f0)
 
-    norm_y0 = linalg.vector_norm(u0)
+    # Never propose a zero step: for u0 = 0 (or a norm that underflows),
+    # fall back to the nugget, so that dt0 > 0 for every initial value.
+    norm_y0 = np.maximum(linalg.vector_norm(u0), nugget)
     norm_dy0 = linalg.vector_norm(f0) + nugget
 
     return scale * norm_y0 / norm_dy0
